@@ -8,24 +8,220 @@ parts typed).  Refinements of unknown values (not-null, numeric range, string pr
 not modelled: the model's unknowns carry their type only, and the cases in which go-cty's answer depends
 on a refinement are outside the modelled fragment (reported as `unsupported`, i.e. a diagnostic here).
 Proved for the strict configuration (no sub-evaluation failed); see `Props/C06.lean`.
+
+## What is proved, and what is not
+
+The statements as first planned, `AbsSoundFull` and `KnownInKnownOutFull` below, are **false**; the
+counterexamples `cex1` … `cex9` are checked by evaluation.  Some of them are corners of the model, others
+are genuine properties of the evaluator (the result type of a conditional is the unification of the types
+of its two results, and the dynamic pseudo-type of an unknown result hides a conversion that a concrete
+evaluation performs: `cex1`, `cex6`).
+
+Proved instead (`Proofs/Unknowns.lean`, definitions in `HclModel/Expr/Gamma.lean`):
+
+* `known_in_known_out_partial`, for expressions with `knownOk e`: every literal is wholly known and the
+  operand of every `tjoin` is a tuple-forming expression (what the parser produces).  Lost: nothing that
+  the parser can produce (`cex8`, `cex9`).
+* `abs_sound_partial`, with
+  * `okExpr e`: every literal is well typed; the two results of every conditional have the same *static*
+    primitive type (`staticTy`: literals of primitive type, operators, templates, such conditionals; one
+    result may be the literal `null`); the body of every splat has a static primitive type.
+    Lost: conditionals whose results are variables / attribute accesses / collections (`cex1`, `cex2`,
+    `cex3`, `cex6`), splats whose body is not statically typed such as `xs[*].name` (`cex5`, `cex7`).
+    Relaxing `conc` instead (dynamic pseudo-type as a wildcard inside the type of an unknown, or "the abstract
+    value converts to the concrete one") does not help: `cex6` and `cex7` end in two different *known*
+    booleans.
+  * `wfEnv ρc`: collection values of the concrete scope are well typed (`cex4`)
+  * `SoundFuncsS F`: `SoundFuncs` plus monotonicity of the declared return type, parameter types that are
+    `any` or do not mention `any`, well-typed results.
 -/
 namespace HclModel
 
-/-- Abstraction soundness: if the abstract evaluation (some variables unknown) and a concrete instantiation
-    are both free of errors, the concrete result is consistent with the abstract one. -/
-theorem abs_sound (F : Funcs) (hF : SoundFuncs F) (e : Expr) (ρc ρa : Env) (h : concEnv ρc ρa)
+/-- Abstraction soundness as first planned.  FALSE: see `abs_sound_full_false`. -/
+def AbsSoundFull : Prop :=
+  ∀ (F : Funcs), SoundFuncs F → ∀ (e : Expr) (ρc ρa : Env), concEnv ρc ρa →
+    (eval (strictCx F) ρc e).2 = [] → (eval (strictCx F) ρa e).2 = [] →
+    conc (eval (strictCx F) ρc e).1 (eval (strictCx F) ρa e).1 = true
+
+/-- Known in, known out as first planned.  FALSE: see `known_in_known_out_full_false`. -/
+def KnownInKnownOutFull : Prop :=
+  ∀ (F : Funcs), SoundFuncs F → ∀ (e : Expr) (ρ : Env), knownEnv ρ →
+    (eval (strictCx F) ρ e).2 = [] → Val.whollyKnown (eval (strictCx F) ρ e).1 = true
+
+/-- Abstraction soundness (proved fragment): if the abstract evaluation (some variables unknown) and a
+    concrete instantiation with well-typed values are both free of errors, the concrete result is consistent
+    with the abstract one.  Excluded by `okExpr`: conditionals whose two results do not have the same static
+    primitive type, splats whose body has no static primitive type, ill-typed literals. -/
+theorem abs_sound_partial (F : Funcs) (hS : SoundFuncsS F) (e : Expr) (ρc ρa : Env) (ho : okExpr e = true)
+    (h : concEnv ρc ρa) (hw : wfEnv ρc)
     (hc : (eval (strictCx F) ρc e).2 = []) (ha : (eval (strictCx F) ρa e).2 = []) :
     conc (eval (strictCx F) ρc e).1 (eval (strictCx F) ρa e).1 = true :=
-  Proofs.abs_sound F hF e ρc ρa h hc ha
+  Proofs.abs_sound_partial F hS e ρc ρa ho h hw hc ha
 
-/-- Conversely: an error-free evaluation in a scope without unknown values never produces an unknown value. -/
-theorem known_in_known_out (F : Funcs) (hF : SoundFuncs F) (e : Expr) (ρ : Env) (hk : knownEnv ρ)
+/-- Conversely: an error-free evaluation in a scope without unknown values never produces an unknown value.
+    Excluded by `knownOk`: unknown literals, `tjoin` applied to anything but a tuple-forming expression. -/
+theorem known_in_known_out_partial (F : Funcs) (hF : SoundFuncs F) (e : Expr) (ρ : Env)
+    (ho : knownOk e = true) (hk : knownEnv ρ)
     (h : (eval (strictCx F) ρ e).2 = []) : Val.whollyKnown (eval (strictCx F) ρ e).1 = true :=
-  Proofs.known_in_known_out F hF e ρ hk h
+  Proofs.known_in_known_out_partial F hF e ρ ho hk h
+
+/-! ## Counterexamples to the full statements -/
+
+/-- the empty function table -/
+def noFuncs : Funcs := fun _ => none
+
+theorem noFuncs_sound : SoundFuncs noFuncs where
+  known := fun fn spec h => by simp [noFuncs] at h
+  mono := fun fn spec h => by simp [noFuncs] at h
+  retTy := fun fn spec h => by simp [noFuncs] at h
+
+/-- the strengthened function-table laws are satisfiable -/
+theorem noFuncs_soundS : SoundFuncsS noFuncs where
+  sound := noFuncs_sound
+  retTy_mono := fun fn spec h => by simp [noFuncs] at h
+  params_ok := fun fn spec h => by simp [noFuncs] at h
+  wf := fun fn spec h => by simp [noFuncs] at h
+
+/-- what a counterexample to abstraction soundness is: consistent scopes, no diagnostics on either side,
+    inconsistent results -/
+def AbsCex (F : Funcs) (e : Expr) (ρc ρa : Env) : Prop :=
+  concEnv ρc ρa ∧ (eval (strictCx F) ρc e).2 = [] ∧ (eval (strictCx F) ρa e).2 = [] ∧
+    conc (eval (strictCx F) ρc e).1 (eval (strictCx F) ρa e).1 = false
+
+/-- `false ? x : 1` with `x` unknown of dynamic type / `"5"`: the abstract result is the number `1`, the
+    concrete one the string `"1"` (the unified type is `any` / `string`). -/
+theorem cex1 : AbsCex noFuncs (.cond (.lit (.bool {} false)) (.var "x") (.lit (.num {} 1)))
+    [("x", .str {} "5")] [("x", .unk {} .dyn)] := ⟨⟨rfl, rfl, trivial⟩, rfl, rfl, rfl⟩
+
+/-! `convertible` is defined by well-founded recursion and does not reduce by `rfl`: the two counterexamples
+    that convert a `null` of type `any` are evaluated with the unfolding lemmas instead. -/
+
+private theorem conv_dyn_str : convertible .dyn .str = some true := by simp [convertible]
+private theorem conv_dyn_num : convertible .dyn .num = some true := by simp [convertible]
+private theorem convert_null_dyn_str (f : Fl) : convert (Val.null f .dyn) .str = .ok (Val.null f .str) := by
+  rw [convert.eq_def]; simp [Val.typeOf, conv_dyn_str]; rfl
+private theorem convert_null_dyn_num (f : Fl) : convert (Val.null f .dyn) .num = .ok (Val.null f .num) := by
+  rw [convert.eq_def]; simp [Val.typeOf, conv_dyn_num]; rfl
+private theorem convert_bool (f : Fl) (b : Bool) : convert (Val.bool f b) .bool = .ok (Val.bool f b) :=
+  Proofs.Unk.convert_id rfl
+
+def cex2Expr : Expr := .cond (.lit (.bool {} true)) (.lit (.null {} .dyn)) (.var "x")
+
+theorem cex2_concrete : eval (strictCx noFuncs) [("x", .str {} "5")] cex2Expr = (.null {} .str, []) := by
+  unfold cex2Expr
+  rw [Proofs.Unk.eval_cond, Proofs.Unk.eval_lit, Proofs.Unk.eval_lit, Proofs.Unk.eval_var]
+  simp [Env.lookup, lookupKey, evalCond, evalCondCore, unifyCond, Val.typeOf, Val.isNull, Val.unmark, Val.setFl,
+    Val.fl, Val.isKnown, tryConvert, convert_null_dyn_str, convert_bool, pure, Except.pure]
+  rfl
+
+theorem cex2_abstract : eval (strictCx noFuncs) [("x", .unk {} .dyn)] cex2Expr = (.null {} .dyn, []) := by rfl
+
+/-- `true ? null : x`, same scopes: `null` of type `any` / of type `string` (`conc` wants equal types). -/
+theorem cex2 : AbsCex noFuncs cex2Expr [("x", .str {} "5")] [("x", .unk {} .dyn)] := by
+  refine ⟨⟨rfl, rfl, trivial⟩, ?_, ?_, ?_⟩
+  · rw [cex2_concrete]
+  · rw [cex2_abstract]
+  · rw [cex2_concrete, cex2_abstract]; rfl
+
+def cex3Expr : Expr :=
+  .cond (.lit (.bool {} true))
+    (.cond (.un .not (.var "c")) (.lit (.null {} .dyn)) (.lit (.null {} .dyn))) (.lit (.num {} 1))
+
+theorem cex3_concrete :
+    eval (strictCx noFuncs) [("c", .bool ⟨true, false⟩ true)] cex3Expr = (.null ⟨true, false⟩ .dyn, []) := by rfl
+
+private theorem cex3_inner : eval (strictCx noFuncs) [("c", .unk ⟨true, false⟩ .bool)]
+    (.cond (.un .not (.var "c")) (.lit (.null {} .dyn)) (.lit (.null {} .dyn))) = (.null {} .dyn, []) := by rfl
+
+theorem cex3_abstract :
+    eval (strictCx noFuncs) [("c", .unk ⟨true, false⟩ .bool)] cex3Expr = (.null {} .num, []) := by
+  unfold cex3Expr
+  rw [Proofs.Unk.eval_cond, Proofs.Unk.eval_lit, Proofs.Unk.eval_lit, cex3_inner]
+  simp [evalCond, evalCondCore, unifyCond, Val.typeOf, Val.isNull, Val.unmark, Val.setFl,
+    Val.fl, Val.isKnown, tryConvert, convert_null_dyn_num, convert_bool, pure, Except.pure]
+  rfl
+
+/-- `true ? (!c ? null : null) : 1` with `c` a marked bool: `!` drops the mark of an unknown operand, and a
+    marked `null` is not the "untyped null" of the unification: `null` of type `number` / of type `any`. -/
+theorem cex3 : AbsCex noFuncs cex3Expr [("c", .bool ⟨true, false⟩ true)] [("c", .unk ⟨true, false⟩ .bool)] := by
+  refine ⟨⟨rfl, rfl, trivial⟩, ?_, ?_, ?_⟩
+  · rw [cex3_concrete]
+  · rw [cex3_abstract]
+  · rw [cex3_concrete, cex3_abstract]; rfl
+
+/-- `x.a` with `x` an ill-typed map (declared `map(string)`, containing a number) / unknown `map(string)`. -/
+theorem cex4 : AbsCex noFuncs (.getAttr (.var "x") "a")
+    [("x", .map {} .str [("a", .num {} 1)])] [("x", .unk {} (.map .str))] := ⟨⟨rfl, rfl, trivial⟩, rfl, rfl, rfl⟩
+
+/-- `xs[*].y` (body `y`) with `y` unknown of dynamic type: unknown `list(any)` / `["a"]` of type
+    `list(string)` (`conc` wants the type of an unknown to be exact). -/
+theorem cex5 : AbsCex noFuncs (.splat "%anon0" (.var "xs") (.var "y"))
+    [("xs", .list {} .num [.num {} 1]), ("y", .str {} "a")] [("xs", .unk {} (.list .num)), ("y", .unk {} .dyn)] :=
+  ⟨⟨rfl, rfl, rfl, rfl, trivial⟩, rfl, rfl, rfl⟩
+
+/-- `(false ? x : 1) == "1"`: `false` / `true`, two known booleans — no relaxation of `conc` absorbs `cex1`. -/
+theorem cex6 : AbsCex noFuncs
+    (.bin .eq (.cond (.lit (.bool {} false)) (.var "x") (.lit (.num {} 1))) (.lit (.str {} "1")))
+    [("x", .str {} "5")] [("x", .unk {} .dyn)] := ⟨⟨rfl, rfl, trivial⟩, rfl, rfl, rfl⟩
+
+/-- `[][*].y == []` on empty lists: the abstract splat is the known empty `list(any)`, the concrete one the
+    empty `list(string)`; `Equals` on different types: `false` / `true`. -/
+theorem cex7 : AbsCex noFuncs
+    (.bin .eq (.splat "%anon0" (.lit (.list {} .num [])) (.var "y")) (.lit (.list {} .str [])))
+    [("y", .str {} "a")] [("y", .unk {} .dyn)] := ⟨⟨rfl, rfl, trivial⟩, rfl, rfl, rfl⟩
+
+theorem abs_sound_full_false : ¬ AbsSoundFull := by
+  intro h
+  obtain ⟨h1, h2, h3, h4⟩ := cex1
+  have := h noFuncs noFuncs_sound _ _ _ h1 h2 h3
+  rw [h4] at this
+  cases this
+
+/-- `tjoin` of a `null` value: no diagnostic (Go panics here; the parser never builds it), unknown result. -/
+theorem cex8 : (eval (strictCx noFuncs) [] (.tjoin (.lit (.null {} .dyn)))).2 = [] ∧
+    Val.whollyKnown (eval (strictCx noFuncs) [] (.tjoin (.lit (.null {} .dyn)))).1 = false := ⟨rfl, rfl⟩
+
+/-- an unknown literal -/
+theorem cex9 : (eval (strictCx noFuncs) [] (.lit (.unk {} .str))).2 = [] ∧
+    Val.whollyKnown (eval (strictCx noFuncs) [] (.lit (.unk {} .str))).1 = false := ⟨rfl, rfl⟩
+
+theorem known_in_known_out_full_false : ¬ KnownInKnownOutFull := by
+  intro h
+  have := h noFuncs noFuncs_sound (.tjoin (.lit (.null {} .dyn))) [] (fun p hp => by cases hp) cex8.1
+  rw [cex8.2] at this
+  cases this
+
+/-! `Rat` multiplication does not reduce by `rfl` (it goes through `Nat.gcd`): the product is evaluated with
+    the unfolding lemmas. -/
+
+private theorem ex_add : eval (strictCx stdFuncs) [("x", .unk {} .num), ("y", .num {} 2)]
+    (.bin .add (.var "x") (.var "y")) = (.unk {} .num, []) := by rfl
+
+private theorem ex_mul : eval (strictCx stdFuncs) [("x", .unk {} .num), ("y", .num {} 2)]
+    (.bin .mul (.var "y") (.var "y")) = (.num {} 4, []) := by
+  have h2 : (2:Rat) * 2 = 4 := by grind
+  have hy : eval (strictCx stdFuncs) [("x", .unk {} .num), ("y", .num {} 2)] (.var "y") = (.num {} 2, []) := by rfl
+  rw [Proofs.Unk.eval_bin, hy]
+  have hc : tryConvert (Val.num {} 2) BinOp.mul.paramTy = .ok (Val.num {} 2) := by rfl
+  unfold evalBin
+  simp only [hc, Proofs.Unk.strict_kd]
+  have hs : shortCircuit .mul (Val.num {} 2).unmark.1 (Val.num {} 2).unmark.1 [] [] = none := by rfl
+  simp only [hs]
+  have hcb : callBin .mul (Val.num {} 2).unmark.1 (Val.num {} 2).unmark.1 = .ok (.num {} 4) := by
+    simp [callBin, Val.unmark, Val.setFl, Val.isNull, h2, pure, Except.pure, Fl.join, Fl.unmark, Val.fl]
+  simp only [hcb, hasErrors]
+  rfl
 
 /-- non-vacuity: an abstract evaluation that is neither trivially unknown nor trivially known -/
 example : (eval (strictCx stdFuncs) [("x", .unk {} .num), ("y", .num {} 2)]
       (.tuple [.bin .add (.var "x") (.var "y"), .bin .mul (.var "y") (.var "y")])).1 =
-    .tuple {} [.unk {} .num, .num {} 4] := by rfl
+    .tuple {} [.unk {} .num, .num {} 4] := by
+  rw [Proofs.Unk.eval_tuple]
+  simp only [evalList, ex_add, ex_mul]
+  rfl
+
+/-- non-vacuity of the fragments: the expression above is in both -/
+example : okExpr (.tuple [.bin .add (.var "x") (.var "y"), .bin .mul (.var "y") (.var "y")]) = true ∧
+    knownOk (.tuple [.bin .add (.var "x") (.var "y"), .bin .mul (.var "y") (.var "y")]) = true := ⟨rfl, rfl⟩
 
 end HclModel
